@@ -1061,6 +1061,7 @@ class Corr:
         if self.N != 1:
             return content_string
 
+        print_range = list(print_range)
         if print_range[1]:
             print_range[1] += 1
         content_string += 'x0/a\tCorr(x0/a)\n------------------\n'
